@@ -49,6 +49,7 @@
 #include "SU_inc/dimension.h"
 #include "detail/ProxyFwd.h"
 #include "detail/MatrixExp.h"
+#include "detail/VerifHooks.h"
 #if SQUIDS_USE_STORAGE_CACHE
   #include "detail/Cache.h"
 #endif
@@ -795,6 +796,9 @@ public:
   friend struct detail::BinaryElementwiseOpProxy;
 
   friend struct detail::SU_vector_operator_access;
+#ifdef SQUIDS_VERIF
+  friend struct verif::access;
+#endif
 
   //overloaded output operator
   friend std::ostream& operator<<(std::ostream&, const SU_vector&);
